@@ -329,7 +329,8 @@ func c01SeedRehash(c *Ctx) {
 	c.verdict(okG, key+":copy-error", A.Pos(), "selfSeed.add after a seed copy only on the nil-error edge of WriteInto", "the segment is added to the self seed although the seed copy failed")
 	// the range loop over job.segment.chunks()
 	header, body, _ := loopOverLen(w, func(os []string) bool {
-		return hasAll(os, "call:(desync.IndexSegment).chunks#0") && !contains(os, "subslice")
+		// the ranged slice is the segment's chunk list and nothing else (not nil or another list on some path)
+		return len(os) == 1 && hasAll(os, "call:(desync.IndexSegment).chunks#0")
 	})
 	if header == nil {
 		c.bad(key+":rehash-loop", A.Pos(), "no loop over the whole of job.segment.chunks() between the seed copy and selfSeed.add: copied data is trusted without re-hashing")
@@ -623,7 +624,7 @@ func (c *Ctx) validateRehashAll(prefix string) {
 		return
 	}
 	key := "fileSeedSegment.Validate"
-	header, body, _ := loopOverLen(fn, func(os []string) bool { return hasAll(os, "field:fileSeedSegment.chunks") && !contains(os, "subslice") })
+	header, body, _ := loopOverLen(fn, func(os []string) bool { return len(os) == 1 && hasAll(os, "field:fileSeedSegment.chunks") })
 	if header == nil {
 		c.bad(key+":loop", fn.Pos(), "no loop over the whole of s.chunks: not every chunk of the segment is re-hashed")
 		return
